@@ -141,6 +141,11 @@ func runC13(c *core.Ctx, r *core.Result) {
 			return guarded("C13", func() string {
 				e0 := t.Build()
 				s0 := tm.ShapeOf(e0)
+				// the tree is the one the constructors were asked to build: every
+				// multi-cause node has the branches it was given, nested ones included
+				if d := modelDiff(e0, t.Model(), "root"); d != "" {
+					return fail("structure:local", "the error tree differs from the composition that built it: %s", short(d))
+				}
 				stages := []stage{
 					{"local", func(e error) error { return e }},
 					{"K", func(e error) error { d, _ := tm.HopK(e); return d }},
@@ -224,6 +229,13 @@ func runC13(c *core.Ctx, r *core.Result) {
 					if pv, perr := parseVerbose(plain); perr == "" && len(multiNodes(e)) > 0 {
 						if nn := len(tm.Nodes(e)); len(pv.entries) != nn {
 							return fail("verbose-entries:"+st.name, "%%+v at stage %s has %d numbered entries for the %d layers reachable through the branches", st.name, len(pv.entries), nn)
+						}
+					}
+					// the multi-cause error's own Format method (when it is the
+					// outermost error handed to fmt) shows the same
+					if _, ok := e.(fmt.Formatter); ok && len(errbase.UnwrapMulti(e)) > 0 {
+						if direct := fmt.Sprintf("%+v", e); direct != plain {
+							return fail("verbose-direct:"+st.name, "%%+v of the multi-cause error itself (%T) differs from its rendering through Formattable at stage %s: %d vs %d bytes; starts %q", e, st.name, len(direct), len(plain), short(direct))
 						}
 					}
 					for _, mn := range multiNodes(e) {
